@@ -549,52 +549,102 @@ private theorem pc_a : predictClose .notRunning = some ⟨1, 1⟩ := by decide
 private theorem pc_b : predictClose .svcRefused = some ⟨0, 1⟩ := by decide
 private theorem pc_ok : predictClose .ok = some ⟨0, 0⟩ := by decide
 
-/-- the oracle's predicate and its explanation agree: `spec` holds exactly when no conjunct is reported -/
-theorem spec_iff_ok (cs : Case) (o : Obs) : spec cs o = true ↔ classify cs o = .ok := by
-  simp only [spec, classify, panicOk]
+private theorem classifyLeak_ne_ok (cs : Case) (o : Obs) : classifyLeak cs o ≠ .ok := by
+  unfold classifyLeak
+  repeat' split
+  all_goals simp
+
+private theorem classifyQuiet_ok_iff (cs : Case) (o : Obs) :
+    classifyQuiet cs o = .ok ↔ (progressOk cs o = true ∧ panicOk cs o = true) := by
+  simp only [classifyQuiet, panicOk]
   repeat' split
   all_goals (try (simp_all; done))
   all_goals (try (simp_all; omega))
-  all_goals (try (simp_all; (repeat' split) <;> simp))
-  all_goals (cases h1 : o.closeCalled <;> cases h2 : panicClauseApplies cs o <;> simp_all)
+  all_goals (cases h2 : panicClauseApplies cs o <;> simp_all)
   all_goals (rename_i hw; by_cases hz : cs.work = 0)
   all_goals (first | exact Or.inl hz | exact Or.inr (hw (by omega)))
 
-/-- KNOWN FINDING (a) is reported for nothing else: the verdict `closeBeforeRunning` (the only one rendered with the
-    prefix `close-before-running:`) is given exactly when the process survived, Close returned, something is left,
-    and what is left is precisely the footprint of schedule (a) with nothing else wrong (`isCloseBeforeRunning`) -/
-theorem known_finding_a_exclusive (cs : Case) (o : Obs) :
-    classify cs o = .closeBeforeRunning ↔
-      (o.survived = true ∧ o.closePanicked = false ∧ (o.closeCalled = true → o.closeReturned = true) ∧ o.firstCloseBad = false ∧
-       o.leak = true ∧ isCloseBeforeRunning cs o = true) := by
-  simp only [classify]
+/-- the oracle's predicate and its explanation agree: `spec` holds exactly when no conjunct is reported -/
+theorem spec_iff_ok (cs : Case) (o : Obs) : spec cs o = true ↔ classify cs o = .ok := by
+  have hl := classifyLeak_ne_ok cs o
+  have hq := classifyQuiet_ok_iff cs o
+  simp only [spec, classify]
+  cases h1 : o.survived <;> cases h0 : o.hung <;> cases h00 : o.crashed <;> cases h2 : o.closePanicked <;> cases h3 : o.firstCloseBad <;> cases h4 : o.leak <;>
+    cases h5 : o.closeCalled <;> cases h6 : o.closeReturned <;> (try simp_all)
+  all_goals (by_cases h7 : o.roundsBlocked = 0)
+  all_goals (try simp_all)
+  all_goals (try omega)
+  all_goals (have h8 : 0 < o.roundsBlocked := by omega)
+  all_goals (simp [h8])
+
+private theorem classifyLeak_a (cs : Case) (o : Obs) :
+    classifyLeak cs o = .closeBeforeRunning ↔ isCloseBeforeRunning cs o = true := by
+  unfold classifyLeak
   repeat' split
   all_goals simp_all
+
+private theorem classifyLeak_b (cs : Case) (o : Obs) :
+    classifyLeak cs o = .closeBeforeServiceStart ↔ (isCloseBeforeRunning cs o = false ∧ isCloseBeforeServiceStart cs o = true) := by
+  unfold classifyLeak
+  repeat' split
+  all_goals simp_all
+
+private theorem classifyQuiet_not_known (cs : Case) (o : Obs) :
+    classifyQuiet cs o ≠ .closeBeforeRunning ∧ classifyQuiet cs o ≠ .closeBeforeServiceStart := by
+  unfold classifyQuiet
+  repeat' split
+  all_goals simp
+
+/-- KNOWN FINDING (a) is reported for nothing else: the verdict `closeBeforeRunning` (the only one rendered with the
+    prefix `close-before-running:`) is given exactly when the process survived, Close returned without a panic, the first
+    instance (if any) closed properly, no foreground round hangs, something is left, and what is left is precisely the
+    footprint of schedule (a) with nothing else wrong (`isCloseBeforeRunning`) -/
+theorem known_finding_a_exclusive (cs : Case) (o : Obs) :
+    classify cs o = .closeBeforeRunning ↔
+      (o.survived = true ∧ o.hung = false ∧ o.closePanicked = false ∧ (o.closeCalled = true → o.closeReturned = true) ∧ o.firstCloseBad = false ∧
+       o.roundsBlocked = 0 ∧ o.leak = true ∧ isCloseBeforeRunning cs o = true) := by
+  have ha := classifyLeak_a cs o
+  have hq := (classifyQuiet_not_known cs o).1
+  simp only [classify]
+  cases h1 : o.survived <;> cases h0 : o.hung <;> cases h00 : o.crashed <;> cases h2 : o.closePanicked <;> cases h3 : o.firstCloseBad <;> cases h4 : o.leak <;>
+    cases h5 : o.closeCalled <;> cases h6 : o.closeReturned <;> (try simp_all)
+  all_goals (by_cases h7 : o.roundsBlocked = 0)
+  all_goals (try simp_all)
+  all_goals (try omega)
+  all_goals (have h8 : 0 < o.roundsBlocked := by omega)
+  all_goals (simp [h8])
 
 /-- KNOWN FINDING (b) likewise -/
 theorem known_finding_b_exclusive (cs : Case) (o : Obs) :
     classify cs o = .closeBeforeServiceStart ↔
-      (o.survived = true ∧ o.closePanicked = false ∧ (o.closeCalled = true → o.closeReturned = true) ∧ o.firstCloseBad = false ∧
-       o.leak = true ∧ isCloseBeforeRunning cs o = false ∧ isCloseBeforeServiceStart cs o = true) := by
+      (o.survived = true ∧ o.hung = false ∧ o.closePanicked = false ∧ (o.closeCalled = true → o.closeReturned = true) ∧ o.firstCloseBad = false ∧
+       o.roundsBlocked = 0 ∧ o.leak = true ∧ isCloseBeforeRunning cs o = false ∧ isCloseBeforeServiceStart cs o = true) := by
+  have hb := classifyLeak_b cs o
+  have hq := (classifyQuiet_not_known cs o).2
   simp only [classify]
-  repeat' split
-  all_goals simp_all
+  cases h1 : o.survived <;> cases h0 : o.hung <;> cases h00 : o.crashed <;> cases h2 : o.closePanicked <;> cases h3 : o.firstCloseBad <;> cases h4 : o.leak <;>
+    cases h5 : o.closeCalled <;> cases h6 : o.closeReturned <;> (try simp_all)
+  all_goals (by_cases h7 : o.roundsBlocked = 0)
+  all_goals (try simp_all)
+  all_goals (try omega)
+  all_goals (have h8 : 0 < o.roundsBlocked := by omega)
+  all_goals (simp [h8])
 
 /-- the two known findings are reported only for a Close issued at the very instant of the plugin's creation (inside the
     services' start-up): a refusal at any later time — e.g. during a restart cool-down — can never be filed under them -/
 theorem known_findings_only_at_creation (cs : Case) (o : Obs)
     (h : classify cs o = .closeBeforeRunning ∨ classify cs o = .closeBeforeServiceStart) : o.closedAtNs = 0 := by
   rcases h with h | h
-  · have := ((known_finding_a_exclusive cs o).mp h).2.2.2.2.2
+  · have := ((known_finding_a_exclusive cs o).mp h).2.2.2.2.2.2.2
     simp only [isCloseBeforeRunning, Bool.and_eq_true, decide_eq_true_eq] at this
     exact this.1.1.1.1.1.1.1.1
-  · have := ((known_finding_b_exclusive cs o).mp h).2.2.2.2.2.2
+  · have := ((known_finding_b_exclusive cs o).mp h).2.2.2.2.2.2.2.2
     simp only [isCloseBeforeServiceStart, Bool.and_eq_true, decide_eq_true_eq] at this
     exact this.1.1.1.1.1.1.1.1.1
 
 /-- the model's prediction for a Close without any panic, written out -/
 private def quietObs (cs : Case) (t n k : Nat) : Obs :=
-  { survived := true, closeCalled := true, closeReturned := true, closePanicked := false, firstCloseBad := false, progress := 1,
+  { survived := true, crashed := false, hung := false, closeCalled := true, closeReturned := true, closePanicked := false, firstCloseBad := false, roundsBlocked := 0, progress := 1,
     closedAtNs := t, errNotRunning := n, errNotStarted := k, errOther := 0,
     leakedServiceStart := n, leakedService := n + k, leakedAux := 0, leakedInflight := 0, ticking := decide (n + k > 0),
     bubbleEnded := decide (k = 0), after2ndServiceStart := 0, after2ndService := k,
@@ -626,7 +676,7 @@ theorem spec_reports_close_before_running (fx : Fixes) (cs : Case) (n : Nat) (hn
   constructor
   · simp [spec, quietObs, Obs.leak, hn']
   · have hc : classify cs (quietObs cs 0 n 0) = .closeBeforeRunning := by
-      simp [classify, quietObs, isCloseBeforeRunning, panicOk, Obs.leak, panicClauseApplies, hn]
+      simp [classify, classifyLeak, quietObs, isCloseBeforeRunning, panicOk, Obs.leak, panicClauseApplies, hn]
     unfold explain; rw [hc]; rfl
 
 /-- schedule (b) on `k ≥ 1` recoverers (and (a) on `n` more): the other known-finding string -/
@@ -638,7 +688,7 @@ theorem spec_reports_close_before_service_start (fx : Fixes) (cs : Case) (n k : 
   constructor
   · simp [spec, quietObs, Obs.leak, hk']
   · have hc : classify cs (quietObs cs 0 n k) = .closeBeforeServiceStart := by
-      simp [classify, quietObs, isCloseBeforeRunning, isCloseBeforeServiceStart, panicOk, Obs.leak, panicClauseApplies, hk, hk']
+      simp [classify, classifyLeak, quietObs, isCloseBeforeRunning, isCloseBeforeServiceStart, panicOk, Obs.leak, panicClauseApplies, hk, hk']
     unfold explain; rw [hc]; rfl
 
 private theorem run_site (fx : Fixes) (site : String) (c : Bool) (n : Nat)
@@ -650,7 +700,7 @@ private theorem run_site (fx : Fixes) (site : String) (c : Bool) (n : Nat)
 
 /-- the model's prediction after one injected panic in scenario "panic", plugin settled, Close (at `t`) at the end -/
 private def panicObs (cs : Case) (t : Nat) (crashed : Bool) (nRun : Nat) : Obs :=
-  { survived := !crashed, closeCalled := !crashed, closeReturned := !crashed, closePanicked := false, firstCloseBad := false,
+  { survived := !crashed, crashed := false, hung := false, closeCalled := !crashed, closeReturned := !crashed, closePanicked := false, firstCloseBad := false, roundsBlocked := 0,
     progress := if !crashed then 1 else 0, closedAtNs := t, errNotRunning := 0, errNotStarted := 0, errOther := 0,
     leakedServiceStart := 0, leakedService := 0, leakedAux := 0, leakedInflight := 0, ticking := false,
     bubbleEnded := !crashed, after2ndServiceStart := 0, after2ndService := 0, panicsInjected := 1, resumed := decide (nRun > 0),
@@ -703,7 +753,7 @@ theorem spec_reports_service_panic_not_resumed_old (cs : Case) (t : Nat) (h : cs
   constructor
   · simp [spec, panicObs, panicOk, progressOk, progressDue, Obs.leak, panicClauseApplies, hs]
   · have hcl : classify cs (panicObs cs t false 0) = .panicNotResumed := by
-      simp [classify, panicObs, progressOk, progressDue, Obs.leak, panicClauseApplies, hs]
+      simp [classify, classifyQuiet, panicObs, progressOk, progressDue, Obs.leak, panicClauseApplies, hs]
     unfold explain; rw [hcl]; rfl
 
 /-- without the v2 coordinator fix the model predicts that a panic in its log poll kills the process; the oracle says so -/
